@@ -40,6 +40,19 @@ theorem center_no_wrap (v : ℤ) (h : -2 ^ 15 ≤ v ∧ v < 2 ^ 15) : wrapInt16 
 /-- Defect D2 (pre-repair `uint16`): the centre −10 was returned as 65526 -/
 theorem uint16_prefix_counterexample : wrapUInt16 (-10) = 65526 ∧ wrapInt16 (-10) = -10 := by decide
 
+/-- Defect D19 (pre-repair): the slicing back-end computed the window origin `y + peak - crop_size` in the dtype of the
+peak array; for an unsigned 32-bit position 3 and crop size 7 the origin −4 became 4294967292.  For every unsigned width the
+origin of a window that starts above / left of the frame (`peak < crop_size`) is not representable, while the signed 64-bit
+arithmetic of the per-pixel kernel and the Python integers of the repaired code hold it exactly. -/
+theorem unsigned_origin_counterexample : (0 + 3 - 7 : ℤ) % 2 ^ 32 = 4294967292 ∧ (0 + 3 - 7 : ℤ) = -4 := by decide
+
+theorem unsigned_origin_wraps (bits : ℕ) (peak c : ℤ) (hlt : peak < c) :
+    (0 + peak - c) % 2 ^ bits ≠ 0 + peak - c := by
+  intro h
+  have hpos : (0 : ℤ) < 2 ^ bits := by positivity
+  have := Int.emod_nonneg (0 + peak - c) (ne_of_gt hpos)
+  omega
+
 /-- every cell of the min-subtracted cut-out is non-negative -/
 theorem cutout_nonneg (cut : ℤ → ℤ → ℚ) (n m y x : ℤ) (hy : 0 ≤ y ∧ y < n) (hx : 0 ≤ x ∧ x < m) :
     0 ≤ cut y x - minList (flat cut n m) := by
